@@ -20,6 +20,7 @@ import (
 	"sync"
 	"time"
 
+	"github.com/getlantern/bytemap"
 	"github.com/getlantern/zenodb"
 	"github.com/getlantern/zenodb/common"
 	"github.com/getlantern/zenodb/core"
@@ -51,7 +52,13 @@ type clusterEnv struct {
 	stop     func()
 	pending  int // handlers registered and not yet used
 	wg       sync.WaitGroup
+	// failAfter >= 0: the follower's next query fails after that many rows (a deadline or
+	// the memory cap hitting the follower mid-query); -1: it runs to the end
+	failAfter int
+	failed    bool
 }
+
+var errFollowerSide = fmt.Errorf("zvh: follower-side failure (deadline exceeded / out of memory) mid-query")
 
 func (c *clusterEnv) close() {
 	if c == nil {
@@ -79,7 +86,7 @@ func (c *clusterEnv) close() {
 }
 
 func setupCluster(seed uint64) (*clusterEnv, error) {
-	c := &clusterEnv{}
+	c := &clusterEnv{failAfter: -1}
 	var err error
 	if c.dir, err = os.MkdirTemp("", "zvh-*"); err != nil {
 		return nil, err
@@ -171,7 +178,13 @@ func setupCluster(seed uint64) (*clusterEnv, error) {
 func iterateAnswer(src core.FlatRowSource) (a answer) {
 	ctx, cancel := context.WithTimeout(context.Background(), 30*time.Second)
 	defer cancel()
-	_, a.err = src.Iterate(ctx, func(fs core.Fields) error {
+	var st interface{}
+	defer func() {
+		if qs, ok := st.(*common.QueryStats); ok && qs != nil {
+			a.stats = qs
+		}
+	}()
+	st, a.err = src.Iterate(ctx, func(fs core.Fields) error {
 		for _, f := range fs {
 			a.fields = append(a.fields, f.String())
 			a.names = append(a.names, f.Name)
@@ -199,6 +212,35 @@ func (c *clusterEnv) followerQuery(ctx context.Context, sqlString string, isSubQ
 	source, err := c.follower.Query(sqlString, isSubQuery, subQueryResults, common.ShouldIncludeMemStore(ctx))
 	if err != nil {
 		return nil, err
+	}
+	if c.failAfter >= 0 {
+		left := c.failAfter
+		trip := func() error {
+			if left == 0 {
+				c.failed = true
+				return errFollowerSide
+			}
+			left--
+			return nil
+		}
+		if onRow != nil {
+			inner := onRow
+			onRow = func(key bytemap.ByteMap, vals core.Vals) (bool, error) {
+				if err := trip(); err != nil {
+					return false, err
+				}
+				return inner(key, vals)
+			}
+		}
+		if onFlatRow != nil {
+			inner := onFlatRow
+			onFlatRow = func(row *core.FlatRow) (bool, error) {
+				if err := trip(); err != nil {
+					return false, err
+				}
+				return inner(row)
+			}
+		}
 	}
 	if unflat {
 		return core.UnflattenOptimized(source).Iterate(ctx, onFields, onRow)
@@ -365,9 +407,17 @@ func runCluster(ctx *hk.RunCtx, nGen int, only *uint64) {
 		i := idx - clusterBase
 		if i < uint64(len(clusterQueries)) {
 			clusterCase(ctx, c, idx, clusterQueries[i])
+			// the same query with a follower that fails at once / after two rows
+			clusterFailCase(ctx, c, idx, clusterQueries[i], int(i%2)*2)
 			return
 		}
-		clusterCase(ctx, c, idx, genClusterQuery(hk.Derive(ctx.Seed, idx)))
+		r := hk.Derive(ctx.Seed, idx)
+		sql := genClusterQuery(r)
+		if r.Chance(1, 3) {
+			clusterFailCase(ctx, c, idx, sql, r.Intn(4))
+			return
+		}
+		clusterCase(ctx, c, idx, sql)
 	}
 	if only != nil {
 		one(*only)
@@ -375,5 +425,42 @@ func runCluster(ctx *hk.RunCtx, nGen int, only *uint64) {
 	}
 	for i := 0; i < len(clusterQueries)+nGen; i++ {
 		one(clusterBase + uint64(i))
+	}
+}
+
+// clusterFailCase: the follower's query fails after `after` rows.  The leader must surface
+// that as an error or as a missing partition — never as a complete-looking, smaller answer.
+func clusterFailCase(ctx *hk.RunCtx, c *clusterEnv, idx uint64, sql string, after int) {
+	cs := map[string]interface{}{"mode": "e2e", "cluster": true, "sql": sql, "follower_fails_after_rows": after}
+	want := c.inProcess(sql)
+	if want.err != nil {
+		return
+	}
+	c.failAfter, c.failed = after, false
+	got, _, infra := c.viaLeader(sql)
+	c.failAfter = -1
+	if infra != nil {
+		ctx.Res.Inconclusive++
+		ctx.Res.Note("e2e cluster: %v", infra)
+		return
+	}
+	if !c.failed {
+		// the partition produced fewer rows than `after`: nothing failed
+		ctx.Res.Hit("cluster-fail-case:not-reached")
+		return
+	}
+	ctx.Res.Count(cs, true)
+	ctx.Res.Hit("cluster-fail-case")
+	missing := got.stats != nil && (len(got.stats.MissingPartitions) > 0 || got.stats.NumSuccessfulPartitions < got.stats.NumPartitions)
+	switch {
+	case got.err != nil:
+		ctx.Res.Hit("cluster-fail-case:leader-returns-error")
+	case missing:
+		ctx.Res.Hit("cluster-fail-case:leader-reports-missing-partition")
+	default:
+		ctx.Res.Disagree(hk.Disagreement{Kind: "property", Case: cs, Impl: fmt.Sprintf("%d rows, error nil, stats %+v", len(got.rows), got.stats),
+			Model:         fmt.Sprintf("in-process: %d rows", len(want.rows)),
+			Detail:        fmt.Sprintf("the follower's query failed after %d rows and reported its error over rpc; the leader returns %d rows (in-process: %d) with no error and no missing partition: a partial answer presented as complete", after, len(got.rows), len(want.rows)),
+			PropertyFails: true, Index: idx})
 	}
 }
